@@ -242,7 +242,11 @@ func TestC09(t *testing.T) {
 			v.Extra, v.ValPar, v.LstPar = map[int]int{}, map[int]int{}, map[int]int{}
 			tree.Walk(func(id int, n *gen.Node) {
 				if n.K == gen.NList && rapid.IntRange(0, 2).Draw(rt, "lstpar") == 0 {
-					v.LstPar[id] = rapid.IntRange(1, 1<<uint(len(n.Vals))-1).Draw(rt, "mask")
+					bits := len(n.Vals)
+					if bits > 12 {
+						bits = 12
+					}
+					v.LstPar[id] = rapid.IntRange(1, 1<<uint(bits)-1).Draw(rt, "mask")
 				}
 			})
 			k := rapid.IntRange(1, 3).Draw(rt, "nsites")
